@@ -325,6 +325,11 @@ func unmarshalObject(dec *msgpack.Decoder, atys map[string]cty.Type, path cty.Pa
 		vals[key] = val
 	}
 
+	if len(vals) != len(atys) {
+		// a repeated key stood in for a missing attribute
+		return cty.DynamicVal, path[:len(path)-1].NewErrorf("an object with %d attributes is required (%d given)", len(atys), len(vals))
+	}
+
 	return cty.ObjectVal(vals), nil
 }
 
